@@ -216,6 +216,17 @@ func limitProgram(kind string, n int) string {
 			b.WriteString("    x = false\n") // OpFalse(1) + OpSetGlobal(3)... a few bytes each
 		}
 		b.WriteString("end\n")
+	case "array-of-empty":
+		// n empty literals as elements: each OpArray 0 pushes without popping, the last ones on a full stack
+		b.WriteString("x := [" + strings.Repeat("[] ", n) + "]\nx = x\n")
+	case "array-of-empty-maps":
+		b.WriteString("x := [" + strings.Repeat("{} ", n) + "]\nx = x\n")
+	case "map-of-empty":
+		b.WriteString("x := {")
+		for i := 0; i < n; i++ {
+			fmt.Fprintf(&b, "k%d:[] ", i)
+		}
+		b.WriteString("}\nx = x\n")
 	case "if-body-bytes":
 		b.WriteString("x := true\nif x\n")
 		for i := 0; i < n/4; i++ {
@@ -237,6 +248,9 @@ var c17Limits = []struct {
 	{"locals", 2000}, {"locals", 2047}, {"locals", 2048}, {"locals", 3000}, {"locals", 65536},
 	{"loop-body-bytes", 65400}, {"loop-body-bytes", 65600}, {"loop-body-bytes", 131000},
 	{"if-body-bytes", 65400}, {"if-body-bytes", 65600}, {"if-body-bytes", 70000},
+	{"array-of-empty", 2040}, {"array-of-empty", 2044}, {"array-of-empty", 2045}, {"array-of-empty", 2046}, {"array-of-empty", 2047}, {"array-of-empty", 2048}, {"array-of-empty", 2049}, {"array-of-empty", 2050}, {"array-of-empty", 2051}, {"array-of-empty", 4096},
+	{"array-of-empty-maps", 2046}, {"array-of-empty-maps", 2047}, {"array-of-empty-maps", 2048}, {"array-of-empty-maps", 2049}, {"array-of-empty-maps", 2050},
+	{"map-of-empty", 1022}, {"map-of-empty", 1023}, {"map-of-empty", 1024}, {"map-of-empty", 1025}, {"map-of-empty", 2048},
 }
 
 func c17Run(c *core.Ctx, i int) {
@@ -289,6 +303,62 @@ func c17Run(c *core.Ctx, i int) {
 		text := b.String()
 		c.Distinct(text)
 		c17Check(c, text, "offset-sweep")
+	case i%8 == 5 && i%16 == 5:
+		// programs whose bytecode ends exactly around the 16-bit limit of jump operands, the last statement
+		// an if / while / for: its jumps target the end of the program (one past the last instruction)
+		c.Cover("shape", "size-boundary")
+		target := 65520 + (i/16)%30
+		tail := []string{"if x > 0\n    x = 0\nend\n", "while x > 5\n    x = x - 1\nend\n", "for range 2\n    x = x + 1\nend\n", "if x > 0\n    x = 0\nelse\n    x = 2\nend\n"}[r.Intn(4)]
+		odd := "" // one filler statement of odd size, when the parity of the target needs it
+		size := func(tens, sixes int) (int, string) {
+			text := "x := 0\n" + odd + strings.Repeat("x = x + 1\n", tens) + strings.Repeat("x = 1\n", sixes) + tail
+			pre := vmRun0(text)
+			if pre.bc == nil {
+				return -1, text
+			}
+			return len(pre.bc.Instructions), text
+		}
+		s0, _ := size(0, 0)
+		s1, _ := size(1, 0)
+		s2, _ := size(0, 1)
+		if s0 < 0 || s1 <= s0 || s2 <= s0 {
+			c.Violation("harness-program-rejected", "size-boundary: the small base program does not compile", tail, nil)
+			return
+		}
+		dt, ds := s1-s0, s2-s0
+		if (target-s0)%2 != 0 && dt%2 == 0 && ds%2 == 0 {
+			for _, f := range []string{"x = -x\n", "x = x\n", "x = -x + 1\n", "x = x + 1 + 1\n", "x = [x][0]\n"} {
+				odd = f
+				if so, _ := size(0, 0); so > 0 && (so-s0)%2 != 0 {
+					s0 = so
+					break
+				}
+				odd = ""
+			}
+		}
+		need := target - s0
+		sixes := 0
+		for sixes < dt && (need-sixes*ds)%dt != 0 {
+			sixes++
+		}
+		if (need-sixes*ds)%dt != 0 || need-sixes*ds < 0 {
+			c.Event("size_boundary_unreachable", 1)
+			return
+		}
+		tens := (need - sixes*ds) / dt
+		text := "x := 0\n" + odd + strings.Repeat("x = x + 1\n", tens) + strings.Repeat("x = 1\n", sixes) + tail
+		if got, _ := size(tens, sixes); got >= 0 && got != target {
+			c.Event("size_boundary_missed", 1)
+		}
+		c.Cover("bytecode-size", fmt.Sprint(target))
+		c.Distinct(fmt.Sprintf("size-boundary %d %q", target, tail))
+		c17Check(c, text, "size-boundary")
+		// and the VM must compute what the evaluator computes (a jump truncated to the start of the program
+		// re-runs it for ever: the step budget of the VM run reports that)
+		if pre := vmRun0(text); pre.compileErr == nil && pre.goPanic == "" {
+			c.Event("size_boundary_programs_compiled", 1)
+			c16Compare(c, text, []gen.VarInfo{{Name: "x", T: tNum, Len: -1}}, "size-boundary:")
+		}
 	case i%8 == 4 && i%32 == 4:
 		// strings with characters of several bytes: whatever the VM computes, it must not crash
 		c.Cover("shape", "non-ascii-strings")
